@@ -28,6 +28,14 @@ TAG_MAP.update(
      univ.Real.tagSet: RealPayloadDecoder()}
 )
 
+# DER prohibits the constructed form for every string type (X.690 10.2),
+# the restricted character string and time types included
+for tagSet, typeDecoder in list(TAG_MAP.items()):
+    if getattr(typeDecoder, 'supportConstructedForm', False):
+        TAG_MAP[tagSet] = type(
+            typeDecoder.__class__.__name__, (typeDecoder.__class__,),
+            {'supportConstructedForm': False})()
+
 TYPE_MAP = decoder.TYPE_MAP.copy()
 
 # Put in non-ambiguous types for faster codec lookup
